@@ -150,7 +150,35 @@ def hashes(prop: str, repo=None) -> list[tuple[str, str]]:
                 nm = fn.attr if isinstance(fn, ast.Attribute) else fn.id if isinstance(fn, ast.Name) else None
                 if nm in byname and len(byname[nm]) <= 6:       # names defined in more than 6 places (copy, shape, ...) say nothing
                     callees.update(byname[nm])
-    return sorted((k, _hash(allf[k])) for k in base | callees)
+    rows = {k: _hash(allf[k]) for k in base | callees}
+    # third tier: everything else in the files the property is anchored in (functions, and the code outside functions:
+    # module-level statements and class bodies — tables, decorators, class attributes)
+    rec = next(json.loads(l) for l in open(core.VERIF / "properties.jsonl") if json.loads(l)["id"] == prop)
+    for f in rec.get("anchors", {}).get("files", []) or []:
+        pth = repo / f
+        if not pth.exists():
+            rows[f"{f}::<missing>"] = "0" * 20
+            continue
+        for k in allf:
+            if k.startswith(f + "::"):
+                rows.setdefault(k, _hash(allf[k]))
+        try:
+            tree = ast.parse(pth.read_text())
+        except SyntaxError:
+            rows[f"{f}::<unparsable>"] = "0" * 20
+            continue
+        rows[f"{f}::<module-level code>"] = _hash(_outside_functions(tree))
+    return sorted(rows.items())
+
+
+def _outside_functions(tree: ast.Module) -> ast.Module:
+    """The module with every function body removed (signatures, decorators, class attributes, tables stay)."""
+    import copy
+    t = copy.deepcopy(tree)
+    for n in ast.walk(t):
+        if isinstance(n, (ast.FunctionDef, ast.AsyncFunctionDef)):
+            n.body = [ast.Pass()]
+    return t
 
 
 def emit(rows, name="snap") -> str:
